@@ -653,6 +653,47 @@ def directed():
     return out
 
 
+def small_scope(depth):
+    """every sequence of up to `depth` calls from a small alphabet (two live iterators, deletions at the ends and in the middle,
+    pushes that coalesce or open a new range), on three small lists; sequences leaving a contract are pruned by the reference"""
+    def names(p, lo, hi):
+        return [p + b"%d" % n for n in range(lo, hi + 1)]
+    bases = [(b"a[1-3],b5", names(b"a", 1, 3) + [b"b5"]), (b"a[1-2],a[4-5]", names(b"a", 1, 2) + names(b"a", 4, 5)),
+             (b"x,a[1-3]", [b"x"] + names(b"a", 1, 3))]
+    out = []
+    for text, nm in bases:
+        start = [("push", hexs(text), nm), ("iter_new", None, None), ("iter_new", None, None)]
+
+        def alphabet(ref):
+            n = len(ref.L)
+            al = [("iter_next", "0", 0), ("iter_next", "1", 1), ("shift", None, None), ("pop", None, None),
+                  ("push", hexs(b"c9"), [b"c9"])]
+            if n and numeric_tail(ref.L[-1]):
+                t = numeric_tail(ref.L[-1])
+                nxt = ref.L[-1][:len(ref.L[-1]) - len(t)] + b"%d" % (int(t) + 1)
+                al.append(("push", hexs(nxt), [nxt]))
+            for h in (0, 1):
+                if ref.its[h][1]:
+                    al.append(("iter_remove", str(h), h))
+            for k in sorted(set([0, 1, n // 2, n - 1])):
+                if 0 <= k < n:
+                    al.append(("delete_nth", str(k), k))
+            return al
+
+        def rec(ops, d):
+            if len(ops) > len(start):
+                out.append(list(ops))
+            if d == 0:
+                return
+            ref = Ref()
+            for o in ops:
+                ref.apply(o[0], o[2])
+            for o in alphabet(ref):
+                rec(ops + [o], d - 1)
+        rec(start, depth)
+    return out
+
+
 def beyond_domain():
     """histories outside the theorems' domains, where the code is known to fail (findings)"""
     def names(p, lo, hi, w=1):
@@ -684,7 +725,12 @@ def run(ctx):
     for name, ops in directed():
         hist.append(ops)
         tags.append("directed:" + name)
-    ncorpus = len(hist)
+    scope = small_scope(3 if quick else 4)
+    for ops in scope:
+        hist.append(ops)
+        tags.append("scope")
+    stats["small_scope_sequences"] = len(scope)
+    ncorpus = len(hist) - len(scope)
     plans = []
     for k in range(nhist):
         p = Plan(r, r.weighted([(r.range(5, 15), 4), (r.range(16, 40), 5)]) if quick or k % 4 else r.range(40, 120), r.chance(1, 5))
@@ -757,12 +803,12 @@ def run(ctx):
     vlib.report_proof_break(ctx, have_input)
     cov = vlib.proof_coverage(ctx, {
         "evaluations": rn.evals, "distinct_nontrivial": len(set(render_ops(o) for o in hist)),
-        "rule": "op histories (5-40 calls, some up to 120) over push/shift/pop/count/nth/find/delete_host/delete_nth/delete/uniq and up to 3 live "
+        "rule": "every call sequence of length <= %d over a 12-letter alphabet on three small lists with two live iterators; then op histories (5-40 calls, some up to 120) over push/shift/pop/count/nth/find/delete_host/delete_nth/delete/uniq and up to 3 live "
                 "iterators (next/remove/reset/destroy), arguments chosen against a planning copy of the plain-list reference so that positions are "
                 "valid, names are present / near-miss twins / absent, deletions often hit the host at or next to an iterator; lists from hlgen "
                 "expressions and a small-prefix-pool generator (mixed widths, overlaps, digit-ending prefixes, singles).  Each history runs on "
                 "hostlist.c (ASan+UBSan) and on the extracted model, is compared answer by answer, and is judged by the plain-list reference; "
-                "distinct = distinct histories",
+                "distinct = distinct histories" % (3 if quick else 4),
         "samples": samples, "input_distribution": stats, "corpus_cases": ncorpus, "outcomes": outcomes, "histories_examined": examined,
         "disagreements": bad})
     return ctx.finish(cov, [
